@@ -2,7 +2,11 @@ package main
 
 import (
 	"fmt"
+	"go/constant"
+	"go/types"
 	"os"
+
+	"golang.org/x/tools/go/ssa"
 )
 
 // debugReads prints the body-read facts of the event body parsers (developer aid).
@@ -36,6 +40,34 @@ func debugValues(args []string) {
 		fmt.Printf("%s %s\n", cd.typeName[s.Typ], s)
 		for _, ret := range successReturns(rv, 2) {
 			fmt.Printf("   %-30s %s  len=%s\n", valueCond(cd, rv, ret), valueTerm(cd, rv, ret.Results[0]), lenTerm(rv, ret.Results[1], cd.valFn))
+		}
+	}
+	os.Exit(0)
+}
+
+func debugJSONTemporal() {
+	w := loadWorld("/repo", nil, "")
+	for _, n := range []string{"printJSONDate", "printJSONTime", "printJSONDateTime", "printJSONDecimal"} {
+		f := w.fn(w.Repl, n)
+		for _, tl := range []bool{false} {
+			var top ssa.Value
+			for _, p := range f.Params {
+				if types.Identical(p.Type(), types.Typ[types.Bool]) {
+					top = p
+				}
+			}
+			res := Specialize(f, map[ssa.Value]constant.Value{top: constant.MakeBool(tl)}, nil)
+			t := newTB(res)
+			t.names[f.Params[0]] = "data"
+			fmt.Printf("%s toplevel=%v\n   %s\n", n, tl, bufferWrites(t, res, f.Params[2], 0))
+		}
+	}
+	a := newA(w, "dbg", "quick")
+	cd := resolveCodec(a, "dbg")
+	for m := int64(0); m <= 6; m++ {
+		rv := cd.specVal(spec{19, m})
+		for _, ret := range successReturns(rv, 2) {
+			fmt.Printf("Time2 md=%d: %s\n", m, valueTerm(cd, rv, ret.Results[0]))
 		}
 	}
 	os.Exit(0)
